@@ -434,14 +434,24 @@ def filter_thru(flux, waveimg=None, wset=None, mask=None,
     else:
         newwaveimg = waveimg
     logwave = np.log10(newwaveimg)
-    diffx = np.outer(np.ones((nTrace,), dtype=flux.dtype), np.arange(nx-1, dtype=flux.dtype))
+    #
+    # The result is a weighted mean, not an integer: integer flux is
+    # converted to double precision (also before masked pixels are
+    # interpolated), floating-point flux keeps its type.
+    #
+    if np.issubdtype(flux.dtype, np.floating):
+        dtype = flux.dtype
+    else:
+        dtype = np.float64
+        flux = flux.astype(dtype)
+    diffx = np.outer(np.ones((nTrace,), dtype=dtype), np.arange(nx-1, dtype=dtype))
     diffy = logwave[:, 1:] - logwave[:, 0:nx-1]
     diffset = xy2traceset(diffx, diffy, ncoeff=4, xmin=0, xmax=nx-1)
     pixnorm, logdiff = traceset2xy(diffset)
     logdiff = np.absolute(logdiff)
     if mask is not None:
         flux_interp = djs_maskinterp(flux, mask, axis=0)
-    res = np.zeros((nTrace, len(ffiles)), dtype=flux.dtype)
+    res = np.zeros((nTrace, len(ffiles)), dtype=dtype)
     for i, f in enumerate(ffiles):
         filter_data = ascii.read(f, comment='#.*', names=('lam', 'respt',
                                  'resbig', 'resnoa', 'xatm'))
